@@ -3,6 +3,7 @@ package props
 import (
 	"fmt"
 	"go/ast"
+	"go/constant"
 	"go/types"
 	"regexp"
 	"sort"
@@ -143,6 +144,38 @@ func (w *c09Wire) source(f *kit.Func, e ast.Expr, depth int) *types.Var {
 	return nil
 }
 
+// c09FieldWritten reports whether some package of the module other than
+// `except` assigns or initialises the field `name` of a value of the named
+// nats-server type.
+func c09FieldWritten(c *kit.Ctx, except, typeName, name string) bool {
+	found := false
+	for _, pk := range c.P.Roots {
+		if !strings.HasPrefix(pk.PkgPath, kit.ModPath) || pk.PkgPath == kit.ModPath+"/"+except {
+			continue
+		}
+		for _, file := range pk.Syntax {
+			ast.Inspect(file, func(n ast.Node) bool {
+				switch x := n.(type) {
+				case *ast.KeyValueExpr:
+					if v, ok := kit.ObjOf(pk.TypesInfo, x.Key).(*types.Var); ok && v.IsField() && v.Name() == name && v.Pkg() != nil && v.Pkg().Path() == c09NatsD {
+						found = true
+					}
+				case *ast.AssignStmt:
+					for _, l := range x.Lhs {
+						if sel, ok := ast.Unparen(l).(*ast.SelectorExpr); ok {
+							if v, ok := kit.ObjOf(pk.TypesInfo, sel).(*types.Var); ok && v.IsField() && v.Name() == name && kit.IsNamedType(pk.TypesInfo.TypeOf(sel.X), c09NatsD, typeName) {
+								found = true
+							}
+						}
+					}
+				}
+				return !found
+			})
+		}
+	}
+	return found
+}
+
 func c09Wiring(c *kit.Ctx, a *c09Anchors) {
 	r6 := c.Rule("R6", "bus and HTTP tokens all come from the configured auth token", 4)
 	w := &c09Wire{c: c, isOpts: map[*types.Var]bool{}}
@@ -189,7 +222,8 @@ func c09Wiring(c *kit.Ctx, a *c09Anchors) {
 		at   ast.Node
 		expr ast.Expr
 		src  *types.Var
-		note string // non-empty: violation independent of the source
+		note string // non-empty: finding independent of the source
+		soft bool   // the finding is an absence / something not understood: undecided, not a violation
 		ob   string
 	}
 	var sinks []*sink
@@ -203,7 +237,7 @@ func c09Wiring(c *kit.Ctx, a *c09Anchors) {
 			}
 		}
 		if s.expr == nil {
-			s.note = "nats.Connect is called without a nats.Token option: the instance's own client is refused by a server that requires the token"
+			s.note, s.soft = "no nats.Token option was recognised among the arguments of nats.Connect", true
 		}
 		sinks = append(sinks, s)
 	}
@@ -286,6 +320,7 @@ func c09Wiring(c *kit.Ctx, a *c09Anchors) {
 		if authExpr == nil {
 			s.at = nil
 			s.note = "the NATS server options never set Authorization: bus connections without the token are accepted"
+			s.soft = c09FieldWritten(c, "server", "Options", "Authorization")
 		}
 		sinks = append(sinks, s)
 	}
@@ -300,13 +335,33 @@ func c09Wiring(c *kit.Ctx, a *c09Anchors) {
 		case wsTokAt == nil:
 			s.at = wsPortAt
 			s.note = "the websocket listener is enabled (Websocket.Port is set) but Websocket.Token never is: websocket bus connections without the token are accepted"
+			s.soft = c09FieldWritten(c, "server", "WebsocketOpts", "Token")
 		case wsPortAt != nil:
 			// the token must be set wherever the port is
 			pp, tp := c.P.Parent(wsF.File, wsPortAt), c.P.Parent(wsF.File, wsTokAt)
 			if pp != tp {
 				g := c.P.Graph(wsF)
 				if !g.NodeDominates(wsTokAt, wsPortAt) && !g.NodeDominates(wsPortAt, wsTokAt) {
-					s.note = "Websocket.Port and Websocket.Token are set on different paths: the listener can be enabled without the token"
+					// a path witness: some exit is reached with the port set and the token not
+					st := &kit.Std{F: wsF}
+					st.OnNode = func(n ast.Node, x kit.S) []kit.S {
+						if n == wsPortAt {
+							x = x.Set("port", "1")
+						}
+						if n == wsTokAt {
+							x = x.Set("tok", "1")
+						}
+						return []kit.S{x}
+					}
+					witness := false
+					for _, e := range g.Run(kit.NewS(), st.Client()).Exits {
+						if e.State.Get("port") == "1" && e.State.Get("tok") != "1" && e.Return != nil && st.ReturnsNil(e.Return, e.State) != "nonnil" {
+							witness = true
+						}
+					}
+					if witness {
+						s.note = "a path sets Websocket.Port without setting Websocket.Token: the listener can be enabled without the token"
+					}
 				}
 			}
 		}
@@ -316,10 +371,10 @@ func c09Wiring(c *kit.Ctx, a *c09Anchors) {
 	// ---- HTTP gate token: handler field ← constructor parameter ← api args field ← server literal
 	{
 		s := &sink{name: "HTTP gate token", ob: "the token the HTTP gate compares the Authorization header with is the configured token, not a constant"}
-		apiArgsField, why := c09GateTokenOrigin(c, a)
+		apiArgsField, why, hard := c09GateTokenOrigin(c, a)
 		if apiArgsField == nil {
 			s.f = nil
-			s.note = why
+			s.note, s.soft = why, !hard
 		} else {
 			pk := c.P.MustPkg("api")
 			nt := c09StructOf(pk.Types, apiArgsField)
@@ -335,6 +390,7 @@ func c09Wiring(c *kit.Ctx, a *c09Anchors) {
 				s.expr = c09LitField(fs[i].Info(), lit, apiArgsField)
 				if s.expr == nil {
 					s.note = fmt.Sprintf("api.%s is built without %s: the HTTP gate compares the Authorization header with the empty string, so a request without the header is served", nt.Obj().Name(), apiArgsField.Name())
+					s.soft = c09FieldAssigned(c, "server", apiArgsField)
 				}
 			}
 		}
@@ -378,12 +434,16 @@ func c09Wiring(c *kit.Ctx, a *c09Anchors) {
 	for _, s := range sinks {
 		o := r6.Ob(s.f, s.at, s.name, s.ob)
 		switch {
+		case s.note != "" && s.soft:
+			o.Undecided("%s", s.note)
 		case s.note != "":
 			o.Violation("%s", s.note)
 		case s.expr == nil:
 			o.OK("not applicable")
+		case s.src == nil && c09IsLiteralValue(s.f.Info(), s.expr):
+			o.Violation("%s is fed from the constant `%s`, not from the configuration struct %s", s.name, s.f.Str(s.expr), w.optsT.Obj().Name())
 		case s.src == nil:
-			o.Violation("%s is fed from `%s`, which is not a field of the configuration struct %s", s.name, s.f.Str(s.expr), w.optsT.Obj().Name())
+			o.Undecided("cannot relate `%s` (%s) to a field of the configuration struct %s", s.f.Str(s.expr), s.name, w.optsT.Obj().Name())
 		case tie:
 			o.Undecided("the token sinks are fed from different configuration fields and there is no majority")
 		case s.src != t0:
@@ -397,22 +457,22 @@ func c09Wiring(c *kit.Ctx, a *c09Anchors) {
 // c09GateTokenOrigin follows the handler's token field back to a field of an
 // argument struct of package api: handler literal element ← constructor
 // parameter ← argument `args.F` at the constructor's call site.
-func c09GateTokenOrigin(c *kit.Ctx, a *c09Anchors) (*types.Var, string) {
+func c09GateTokenOrigin(c *kit.Ctx, a *c09Anchors) (*types.Var, string, bool) {
 	pk := c.P.MustPkg("api")
 	nt := c09StructOf(pk.Types, a.tokenField)
 	if nt == nil {
-		return nil, "struct declaring the handler's token field not found"
+		return nil, "struct declaring the handler's token field not found", false
 	}
 	lits, fs := c09Lits(c, "api", nt)
 	if len(lits) == 0 {
-		return nil, fmt.Sprintf("api.%s is never constructed by a composite literal", nt.Obj().Name())
+		return nil, fmt.Sprintf("api.%s is never constructed by a composite literal", nt.Obj().Name()), false
 	}
 	var res *types.Var
 	for i, lit := range lits {
 		f := fs[i]
 		e := c09LitField(f.Info(), lit, a.tokenField)
 		if e == nil {
-			return nil, fmt.Sprintf("api.%s is built at %s without its token field %s: the gate compares the Authorization header with the empty string", nt.Obj().Name(), f.At(lit), a.tokenField.Name())
+			return nil, fmt.Sprintf("api.%s is built at %s without its token field %s: the gate compares the Authorization header with the empty string", nt.Obj().Name(), f.At(lit), a.tokenField.Name()), !c09FieldAssigned(c, "api", a.tokenField)
 		}
 		po := kit.ObjOf(f.Info(), e)
 		pidx := -1
@@ -422,7 +482,7 @@ func c09GateTokenOrigin(c *kit.Ctx, a *c09Anchors) (*types.Var, string) {
 			}
 		}
 		if pidx < 0 {
-			return nil, fmt.Sprintf("the handler's token field %s is set to `%s` at %s, not to a constructor parameter", a.tokenField.Name(), f.Str(e), f.At(lit))
+			return nil, fmt.Sprintf("the handler's token field %s is set to `%s` at %s, not to a constructor parameter", a.tokenField.Name(), f.Str(e), f.At(lit)), c09IsLiteralValue(f.Info(), e)
 		}
 		// call sites of the constructor inside api
 		n := 0
@@ -437,23 +497,43 @@ func c09GateTokenOrigin(c *kit.Ctx, a *c09Anchors) (*types.Var, string) {
 				n++
 				sel, ok := ast.Unparen(call.Args[pidx]).(*ast.SelectorExpr)
 				if !ok {
-					return nil, fmt.Sprintf("%s is called at %s with token `%s`, not with a field of the server arguments", f.Name, g.At(call), g.Str(call.Args[pidx]))
+					return nil, fmt.Sprintf("%s is called at %s with token `%s`, not with a field of the server arguments", f.Name, g.At(call), g.Str(call.Args[pidx])), c09IsLiteralValue(g.Info(), call.Args[pidx])
 				}
 				v, ok := kit.ObjOf(g.Info(), sel).(*types.Var)
 				if !ok || !v.IsField() || c09StructOf(pk.Types, v) == nil {
-					return nil, fmt.Sprintf("%s is called at %s with token `%s`, not with a field of the server arguments", f.Name, g.At(call), g.Str(call.Args[pidx]))
+					return nil, fmt.Sprintf("%s is called at %s with token `%s`, not with a field of the server arguments", f.Name, g.At(call), g.Str(call.Args[pidx])), c09IsLiteralValue(g.Info(), call.Args[pidx])
 				}
 				if res != nil && res != v {
-					return nil, "the gate token comes from different argument fields"
+					return nil, "the gate token comes from different argument fields", false
 				}
 				res = v
 			}
 		}
 		if n == 0 {
-			return nil, fmt.Sprintf("constructor %s is never called inside package api", f.Name)
+			return nil, fmt.Sprintf("constructor %s is never called inside package api", f.Name), false
 		}
 	}
-	return res, ""
+	return res, "", false
+}
+
+// c09FieldAssigned reports whether package rel assigns to the struct field v
+// outside composite literals (`x.f = …`).
+func c09FieldAssigned(c *kit.Ctx, rel string, v *types.Var) bool {
+	found := false
+	pk := c.P.MustPkg(rel)
+	for _, file := range pk.Syntax {
+		ast.Inspect(file, func(n ast.Node) bool {
+			if as, ok := n.(*ast.AssignStmt); ok {
+				for _, l := range as.Lhs {
+					if sel, ok := ast.Unparen(l).(*ast.SelectorExpr); ok && kit.ObjOf(pk.TypesInfo, sel) == types.Object(v) {
+						found = true
+					}
+				}
+			}
+			return !found
+		})
+	}
+	return found
 }
 
 // ---------------------------------------------------------------------------
@@ -462,8 +542,10 @@ func c09GateTokenOrigin(c *kit.Ctx, a *c09Anchors) (*types.Var, string) {
 var c09NodesSubject = regexp.MustCompile(`^nodes\.%[vs]\.%[vs]$`)
 
 // c09ListAnchors finds, in package client, the node fetch function (request
-// on subject nodes.<parent>.<id>) and the user listing function (a
-// func(*nats.Conn, string) with a self-recursive local closure that fetches).
+// on subject nodes.<parent>.<id>), the user listing function (the
+// func(*nats.Conn, string) called from package api from which a recursive
+// fetching function is reachable) and that recursive function (closure, method
+// or package-level function).
 func c09ListAnchors(c *kit.Ctx, a *c09Anchors) {
 	a.parentIdx, a.idIdx, a.delIdx = -1, -1, -1
 	for _, f := range c.P.Funcs("client") {
@@ -498,34 +580,54 @@ func c09ListAnchors(c *kit.Ctx, a *c09Anchors) {
 	if a.fetchFn == nil || a.parentIdx < 0 || a.idIdx < 0 || a.delIdx < 0 {
 		c.Fatalf("node fetch function of package client (subject nodes.<parent>.<id>, bool include-deleted parameter) not found")
 	}
+	// client functions called from package api
+	fromAPI := map[*kit.Func]bool{}
+	for _, g := range c.P.Funcs("api") {
+		if g.Body == nil {
+			continue
+		}
+		for _, call := range g.AllCalls(true) {
+			if cf := g.CalleeFunc(call); cf != nil && cf.PkgRel() == "client" {
+				fromAPI[cf] = true
+			}
+		}
+	}
 	for _, f := range c.P.Funcs("client") {
-		if f.Lit == nil || f.Outer == nil || f.Outer.Decl == nil {
+		if f.Decl == nil || f.Body == nil || !fromAPI[f] {
 			continue
 		}
-		rec, fetches := false, false
-		for _, call := range f.AllCalls(false) {
-			cf := f.CalleeFunc(call)
-			if cf == f {
-				rec = true
-			}
-			if cf == a.fetchFn {
-				fetches = true
-			}
-		}
-		if !rec || !fetches {
-			continue
-		}
-		ps := f.Outer.Params()
+		ps := f.Params()
 		if len(ps) != 2 || !kit.IsNamedType(ps[0].Type(), natsPkg, "Conn") || !c09IsString(ps[1].Type()) {
 			continue
 		}
-		if a.listFn != nil {
-			c.Fatalf("two listing functions found in package client: %s and %s", a.listFn.Name, f.Outer.Name)
+		var walk *kit.Func
+		for _, g := range c09Closure(f) {
+			if g.Body == nil || g == f {
+				continue
+			}
+			rec, fetches := false, false
+			for _, call := range g.AllCalls(false) {
+				switch g.CalleeFunc(call) {
+				case g:
+					rec = true
+				case a.fetchFn:
+					fetches = true
+				}
+			}
+			if rec && fetches {
+				walk = g
+			}
 		}
-		a.listFn, a.walkFn = f.Outer, f
+		if walk == nil {
+			continue
+		}
+		if a.listFn != nil {
+			c.Fatalf("two listing functions found in package client: %s and %s", a.listFn.Name, f.Name)
+		}
+		a.listFn, a.walkFn = f, walk
 	}
 	if a.listFn == nil {
-		c.Fatalf("user listing function (func(*nats.Conn, string) with a recursive fetching closure) not found in package client")
+		c.Fatalf("user listing function (func(*nats.Conn, string) called from package api that reaches a recursive fetching function) not found in package client")
 	}
 }
 
@@ -547,17 +649,23 @@ func c09Listing(c *kit.Ctx, a *c09Anchors) {
 		o := r7.Ob(f0, at, "listing subject", "the listing is asked for the user id the JWT validator returned for this request")
 		switch {
 		case len(a.listCalls) == 0:
-			o.Violation("no gated handler calls the user listing %s", list.Name)
+			o.Undecided("no interpreted path of a gated handler calls the user listing %s", list.Name)
 		default:
-			bad := ""
+			bad, murky := "", ""
 			for _, lc := range a.listCalls {
-				if lc.bad != "" && bad == "" {
+				switch {
+				case lc.bad != "" && lc.murky && murky == "":
+					murky = lc.bad
+				case lc.bad != "" && !lc.murky && bad == "":
 					bad = lc.bad
 				}
 			}
-			if bad != "" {
+			switch {
+			case bad != "":
 				o.Violation("%s", bad)
-			} else {
+			case murky != "":
+				o.Undecided("%s — but the user id went through code that was not interpreted", murky)
+			default:
 				o.OK("%d call site(s), user id = second result of the validator", len(a.listCalls))
 			}
 		}
@@ -581,116 +689,178 @@ func c09Listing(c *kit.Ctx, a *c09Anchors) {
 		c.Fatalf("%s does not return a slice of structs with JSON fields id and parent", list.Name)
 	}
 
-	fieldOfRange := func(f *kit.Func, e ast.Expr) (rangeOver types.Object, fld *types.Var) {
-		sel, ok := ast.Unparen(e).(*ast.SelectorExpr)
-		if !ok {
-			return nil, nil
+	// range statements of package client by their value variable
+	rangeOf := map[types.Object]*ast.RangeStmt{}
+	funcOfRange := map[*ast.RangeStmt]*kit.Func{}
+	for _, g := range c.P.Funcs("client") {
+		if g.Body == nil {
+			continue
 		}
-		fld, _ = kit.ObjOf(f.Info(), sel).(*types.Var)
-		vo := kit.ObjOf(f.Info(), sel.X)
-		if vo == nil || fld == nil {
-			return nil, nil
-		}
-		// a plain copy of the range variable (`un := inst`)
-		if d := c09LocalDef(f, sel.X); d != sel.X {
-			if o := kit.ObjOf(f.Info(), d); o != nil {
-				if _, isId := ast.Unparen(d).(*ast.Ident); isId {
-					vo = o
+		ast.Inspect(g.Body, func(n ast.Node) bool {
+			if r, ok := n.(*ast.RangeStmt); ok && r.Value != nil {
+				if o := kit.ObjOf(info, r.Value); o != nil {
+					rangeOf[o] = r
+					if funcOfRange[r] == nil || g.Lit != nil {
+						funcOfRange[r] = g
+					}
 				}
-			}
-		}
-		ast.Inspect(f.Root().Body, func(n ast.Node) bool {
-			if r, ok := n.(*ast.RangeStmt); ok && r.Value != nil && kit.ObjOf(f.Info(), r.Value) == vo {
-				rangeOver = kit.ObjOf(f.Info(), r.X)
 			}
 			return true
 		})
-		return rangeOver, fld
 	}
-	assignedFrom := func(f *kit.Func, call *ast.CallExpr) types.Object {
-		if as, ok := c.P.Parent(f.File, call).(*ast.AssignStmt); ok && len(as.Lhs) > 0 {
-			return kit.ObjOf(f.Info(), as.Lhs[0])
+
+	fl := newC09Flow(list)
+	fl.inline = c09SamePkg(fetch)
+	fl.roles = func(call *ast.CallExpr) []string {
+		if fl.cur().CalleeFunc(call) == fetch && idIdx < len(call.Args) && fl.obj(call.Args[idIdx]) == types.Object(userParam) {
+			return []string{"users"}
 		}
 		return nil
 	}
-
-	// ---- (a) the user's instances: fetched by the user id, without deleted ones
-	var rootCall *ast.CallExpr
-	for _, call := range list.AllCalls(false) {
-		if list.CalleeFunc(call) == fetch && idIdx < len(call.Args) && kit.ObjOf(info, call.Args[idIdx]) == types.Object(userParam) {
-			rootCall = call
+	// classify: where does a start / fetch argument come from?
+	//   "inst"  — the parent or id field of one of the user's instances
+	//   "const" — a constant (e.g. "root", "all")
+	//   "field" — another field of an instance
+	//   ""      — unknown
+	classify := func(e ast.Expr, s kit.S) string {
+		e = ast.Unparen(fl.st.Resolve(e))
+		if _, ok := kit.ConstString(info, e); ok {
+			return "const"
 		}
-	}
-	oA := r7.Ob(list, rootCall, "user instances", "the instances of the user node are fetched by the user id and without deleted nodes")
-	var users types.Object
-	switch {
-	case rootCall == nil:
-		oA.Violation("%s never fetches the nodes of its user id parameter", list.Name)
-	default:
-		users = assignedFrom(list, rootCall)
-		dv, dok := false, false
-		if delIdx < len(rootCall.Args) {
-			if tv := info.Types[rootCall.Args[delIdx]]; tv.Value != nil {
-				dv, dok = tv.Value.String() == "true", true
+		sel, ok := e.(*ast.SelectorExpr)
+		if !ok {
+			return ""
+		}
+		fld, _ := kit.ObjOf(info, sel).(*types.Var)
+		vo := kit.ObjOf(info, fl.st.Resolve(sel.X))
+		if fld == nil || vo == nil {
+			return ""
+		}
+		r := rangeOf[vo]
+		if r == nil {
+			// a plain copy of a range variable (`un := inst`)
+			for g := range map[*kit.Func]bool{fl.cur(): true, list: true} {
+				if d := c09LocalDef(g, sel.X); d != sel.X {
+					if o := kit.ObjOf(info, d); o != nil && rangeOf[o] != nil {
+						r = rangeOf[o]
+					}
+				}
 			}
 		}
-		switch {
-		case !dok || dv:
-			oA.Violation("the user's instances are fetched with include-deleted = `%s`: a user removed from a group still lists that group's subtree", list.Str(rootCall.Args[delIdx]))
-		case users == nil:
-			oA.Undecided("result of the fetch is not assigned to a variable")
-		default:
-			oA.OK("%s", list.Str(rootCall))
+		if r == nil || fl.roleOf(r.X, s) != "users" {
+			return ""
 		}
+		if fld == parentField || fld == idField {
+			return "inst"
+		}
+		return "field"
 	}
-
-	// ---- (b) every other fetch / traversal of the listing starts inside the
-	// subtree of an attach point: at the parent (or id) field of a user instance
-	oB := r7.Ob(list, nil, "listing roots", "every traversal and every top-level fetch starts at the parent (or id) field of one of the user's live instances")
-	var bbad []string
+	inWalk := func() bool {
+		if fl.cur() == walk {
+			return true
+		}
+		for _, g := range fl.stack {
+			if g == walk {
+				return true
+			}
+		}
+		return false
+	}
+	var rootCalls []*ast.CallExpr
+	rootBad, rootMurky := "", ""
 	starts := 0
-	for _, call := range list.AllCalls(false) {
-		var args []ast.Expr
-		switch list.CalleeFunc(call) {
-		case walk:
-			args = call.Args
-		case fetch:
-			if call == rootCall {
-				continue
+	var startBad, startMurky []string
+	fl.onCall = func(call *ast.CallExpr, n ast.Node, s kit.S) []kit.S {
+		cur := fl.cur()
+		cf := cur.CalleeFunc(call)
+		switch {
+		case cf == fetch && idIdx < len(call.Args) && fl.obj(call.Args[idIdx]) == types.Object(userParam):
+			rootCalls = append(rootCalls, call)
+			if delIdx < len(call.Args) {
+				v, ok := fl.st.FoldExpr(fl.st.Resolve(call.Args[delIdx]), s)
+				switch {
+				case ok && v.Kind() == constant.Bool && !constant.BoolVal(v):
+				case ok && v.Kind() == constant.Bool:
+					rootBad = fmt.Sprintf("the user's instances are fetched with include-deleted = true at %s: a user removed from a group still lists that group's subtree", cur.At(call))
+				default:
+					rootMurky = fmt.Sprintf("include-deleted argument `%s` of %s is not a known constant", cur.Str(call.Args[delIdx]), cur.Str(call))
+				}
 			}
-			// one of parent / id must pin the fetch to the subtree
-			if parentIdx < len(call.Args) && idIdx < len(call.Args) {
-				args = []ast.Expr{call.Args[parentIdx], call.Args[idIdx]}
+		case cf == fetch && !inWalk():
+			starts++
+			kinds := []string{}
+			for _, idx := range []int{parentIdx, idIdx} {
+				if idx < len(call.Args) {
+					kinds = append(kinds, classify(call.Args[idx], s))
+				}
 			}
-		default:
-			continue
-		}
-		starts++
-		pinned := false
-		for _, arg := range args {
-			over, fld := fieldOfRange(list, arg)
-			if fld != nil && users != nil && over == users && (fld == parentField || fld == idField) {
-				pinned = true
+			switch {
+			case contains(kinds, "inst"):
+			case contains(kinds, ""):
+				startMurky = append(startMurky, fmt.Sprintf("cannot relate `%s` at %s to the user's instances", cur.Str(call), cur.At(call)))
+			default:
+				startBad = append(startBad, fmt.Sprintf("`%s` at %s is pinned neither to the %s nor to the %s field of one of the user's instances: nodes outside the user's subtrees are listed",
+					cur.Str(call), cur.At(call), parentField.Name(), idField.Name()))
+			}
+		case cf == walk && !inWalk():
+			starts++
+			kind := "?"
+			for i, p := range walk.Params() {
+				if c09IsString(p.Type()) && i < len(call.Args) {
+					kind = classify(call.Args[i], s)
+				}
+			}
+			switch kind {
+			case "inst":
+			case "", "?":
+				startMurky = append(startMurky, fmt.Sprintf("cannot relate the start `%s` at %s to the user's instances", cur.Str(call), cur.At(call)))
+			default:
+				startBad = append(startBad, fmt.Sprintf("the traversal `%s` at %s does not start at the %s/%s field of one of the user's instances: nodes outside the user's subtrees are listed",
+					cur.Str(call), cur.At(call), parentField.Name(), idField.Name()))
 			}
 		}
-		if !pinned {
-			bbad = append(bbad, fmt.Sprintf("`%s` at %s does not start at the %s/%s field of one of the user's instances: nodes outside the user's subtrees are listed",
-				list.Str(call), list.At(call), parentField.Name(), idField.Name()))
-		}
+		return nil
 	}
+	fl.run(c, kit.NewS())
+
+	var at0 ast.Node
+	if len(rootCalls) > 0 {
+		at0 = rootCalls[0]
+	}
+	oA := r7.Ob(list, at0, "user instances", "the instances of the user node are fetched by the user id and without deleted nodes")
 	switch {
-	case len(bbad) > 0:
-		oB.Violation("%s", strings.Join(bbad, "; "))
-	case starts == 0:
-		oB.Violation("%s never starts a traversal", list.Name)
+	case rootBad != "":
+		oA.Violation("%s", rootBad)
+	case rootMurky != "":
+		oA.Undecided("%s", rootMurky)
+	case len(rootCalls) == 0:
+		oA.Undecided("no interpreted path of %s fetches the nodes of its user id parameter", list.Name)
 	default:
-		oB.OK("%d start(s), all at a field of a user instance", starts)
+		oA.OK("%s", list.Str(rootCalls[0]))
 	}
 
-	// ---- (c) the walk stays below its argument
-	oC := r7.Ob(walk, nil, "walk stays in the subtree", "the recursive closure fetches under (or exactly) its argument and recurses only on a field of a fetched node")
-	var cbad []string
-	wparams := walk.Params()
+	oB := r7.Ob(list, nil, "listing roots", "every traversal and every top-level fetch starts at the parent (or id) field of one of the user's live instances")
+	switch {
+	case len(startBad) > 0:
+		oB.Violation("%s", strings.Join(uniqStrings(startBad), "; "))
+	case len(startMurky) > 0:
+		oB.Undecided("%s", strings.Join(uniqStrings(startMurky), "; "))
+	case starts == 0:
+		oB.Undecided("no interpreted path of %s starts a traversal", list.Name)
+	default:
+		oB.OK("every start is pinned to a field of a user instance")
+	}
+
+	// ---- (c) the walk stays below its argument (decided on the recursive function itself)
+	oC := r7.Ob(walk, nil, "walk stays in the subtree", "the recursive function fetches under (or exactly) its argument and recurses only on a field of a fetched node")
+	var cbad, cmurky []string
+	var wparam types.Object
+	for _, p := range walk.Params() {
+		if c09IsString(p.Type()) {
+			wparam = p
+		}
+	}
+	winfo := walk.Info()
 	fetched := map[types.Object]bool{}
 	nf := 0
 	for _, call := range walk.AllCalls(false) {
@@ -698,38 +868,68 @@ func c09Listing(c *kit.Ctx, a *c09Anchors) {
 			continue
 		}
 		nf++
-		pinned := false
+		pinned, allConst := false, true
 		for _, idx := range []int{parentIdx, idIdx} {
-			if len(wparams) == 1 && idx < len(call.Args) && kit.ObjOf(walk.Info(), call.Args[idx]) == types.Object(wparams[0]) {
+			if idx >= len(call.Args) {
+				continue
+			}
+			if wparam != nil && kit.ObjOf(winfo, call.Args[idx]) == wparam {
 				pinned = true
 			}
+			if _, ok := kit.ConstString(winfo, call.Args[idx]); !ok {
+				allConst = false
+			}
 		}
-		if !pinned {
-			cbad = append(cbad, fmt.Sprintf("`%s` fetches neither under nor exactly the closure's argument: the walk leaves the subtree", walk.Str(call)))
+		switch {
+		case pinned:
+		case allConst:
+			cbad = append(cbad, fmt.Sprintf("`%s` fetches neither under nor exactly the walk's argument: the walk leaves the subtree", walk.Str(call)))
+		default:
+			cmurky = append(cmurky, fmt.Sprintf("cannot relate `%s` to the walk's argument", walk.Str(call)))
 		}
-		if o := assignedFrom(walk, call); o != nil {
-			fetched[o] = true
+		if as, ok := c.P.Parent(walk.File, call).(*ast.AssignStmt); ok && len(as.Lhs) > 0 {
+			if o := kit.ObjOf(winfo, as.Lhs[0]); o != nil {
+				fetched[o] = true
+			}
 		}
 	}
 	for _, call := range walk.AllCalls(false) {
 		if walk.CalleeFunc(call) != walk {
 			continue
 		}
-		ok := false
-		if len(call.Args) == 1 {
-			over, fld := fieldOfRange(walk, call.Args[0])
-			ok = fld != nil && over != nil && fetched[over] && (fld == idField || fld == parentField)
+		var arg ast.Expr
+		for i, p := range walk.Params() {
+			if types.Object(p) == wparam && i < len(call.Args) {
+				arg = call.Args[i]
+			}
 		}
-		if !ok {
-			cbad = append(cbad, fmt.Sprintf("the recursion `%s` does not continue at a node fetched under the current one", walk.Str(call)))
+		ok := false
+		isConst := false
+		if arg != nil {
+			_, isConst = kit.ConstString(winfo, arg)
+			if sel, isSel := ast.Unparen(arg).(*ast.SelectorExpr); isSel {
+				fld, _ := kit.ObjOf(winfo, sel).(*types.Var)
+				if r := rangeOf[kit.ObjOf(winfo, sel.X)]; r != nil && fetched[kit.ObjOf(winfo, r.X)] && (fld == idField || fld == parentField) {
+					ok = true
+				}
+			}
+		}
+		switch {
+		case ok:
+		case isConst:
+			cbad = append(cbad, fmt.Sprintf("the recursion `%s` restarts at a constant instead of a node fetched under the current one", walk.Str(call)))
+		default:
+			cmurky = append(cmurky, fmt.Sprintf("cannot relate the recursion `%s` to a node fetched under the current one", walk.Str(call)))
 		}
 	}
 	sort.Strings(cbad)
 	switch {
 	case len(cbad) > 0:
 		oC.Violation("%s", strings.Join(uniqStrings(cbad), "; "))
+	case len(cmurky) > 0:
+		oC.Undecided("%s", strings.Join(uniqStrings(cmurky), "; "))
 	case nf == 0:
-		oC.Undecided("the closure never fetches")
+		oC.Undecided("the recursive function never fetches")
 	default:
 		oC.OK("%d fetch(es) pinned to the argument; recursion on a fetched node", nf)
 	}
